@@ -522,6 +522,9 @@ Matrix_<T> solveZero(F f, const Matrix_<T>& x0, const SolveParams& p = SolvePara
 		f1 = f(x);
 	}
 
+	if (f1.norm() < r0) // the last iterate has not been compared yet
+		xx.copy(x);
+
 	return xx;
 }
 
